@@ -100,7 +100,9 @@ theorem noTV_raw (env : Env) (orc : Nat → Val → Raw) (horc : ∀ k v, orc k 
     · split
       · split
         · simp
-        · split <;> simp
+        · split
+          · simp
+          · split <;> simp
       · simp
     · simp
   case case11 =>
